@@ -163,7 +163,8 @@ func (c *Chain) NextBlock(dt time.Duration) (p interface{}) {
 	return c.Begin(dt)
 }
 
-func (c *Chain) Ctx() sdk.Context { return c.A.NewContext(false, c.hdr()) }
+// Ctx reads the deliver state inside a block and the last committed state between blocks.
+func (c *Chain) Ctx() sdk.Context { return c.A.NewContext(!c.InBlk, c.hdr()) }
 
 type DeliverResult struct {
 	OK     bool
